@@ -288,9 +288,8 @@ def get (s : St) (a : Addr) : Err :=
   let skip := noMeta s.mode
   let m := if skip then (false, Err.ok) else metaExists s a
   if !skip && m.2 != .ok then m.2
+  else if !skip && !m.1 then .notFound      -- a write-cache copy the metabase does not know is not served
   else if s.hasWC && s.wc.contains a then .ok
-  else if skip then (if s.blob.contains a then .ok else .notFound)
-  else if !m.1 then .notFound
   else if s.blob.contains a then .ok else .notFound
 
 /-- `Shard.Head(addr, raw=false)` -/
